@@ -16,9 +16,11 @@ import (
 	fpgo "github.com/TeaEntityLab/fpGo/v2"
 )
 
+var c06CoreAlphabet = []string{"o", "u", "s", "p", "x", "n:1", "z", "H"}
+
 const c06WalkLimit = 1 << 20
 
-var c06Alphabet = []string{"o", "u", "s", "p", "k", "c", "x", "n:0", "n:1", "n:2", "z"}
+var c06Alphabet = []string{"o", "u", "s", "p", "k", "c", "x", "n:0", "n:1", "n:2", "n:3", "z"}
 
 func c06RunTok(q *fpgo.LinkedListQueue[int], tok string) (out string) {
 	defer func() {
@@ -174,6 +176,20 @@ func c06Gen(tier string, rng *rand.Rand, emit func(string)) map[string]interface
 		}
 	}
 	rec(nil)
+	// one level deeper over the operations that change the shape of the lists
+	deep := 0
+	var rec2 func(prefix []string)
+	rec2 = func(prefix []string) {
+		if len(prefix) == maxLen+1 {
+			emit(c06Concrete(prefix) + " ; " + c06Drains[deep%len(c06Drains)])
+			deep++
+			return
+		}
+		for _, a := range c06CoreAlphabet {
+			rec2(append(append([]string{}, prefix...), a))
+		}
+	}
+	rec2(nil)
 	// random long histories, biased to keep the queue non-empty and to mix head and tail removals
 	for i := 0; i < nRandom; i++ {
 		n := 1 + rng.Intn(randLen)
@@ -231,8 +247,9 @@ func c06Gen(tier string, rng *rand.Rand, emit func(string)) map[string]interface
 		emit(strings.Join(ops, " ; ") + " ; N ; c")
 	}
 	return map[string]interface{}{
-		"exhaustive": false, "exhaustive_prefix_scope": "all op sequences of length 1.." + strconv.Itoa(maxLen) + " over 11 ops, each followed by a state-reading drain",
-		"exhaustive_cases": exhaustive, "directed_cases": len(c06Directed), "random_cases": nRandom, "random_max_len": randLen, "random_op_mix": opCount,
+		"exhaustive": false, "exhaustive_prefix_scope": "all op sequences of length 1.." + strconv.Itoa(maxLen) + " over 12 ops, each followed by a state-reading drain",
+		"exhaustive_cases": exhaustive, "deeper_scope": "all op sequences of length " + strconv.Itoa(maxLen+1) + " over the 8 shape-changing ops " + strings.Join(c06CoreAlphabet, ","),
+		"deeper_cases": deep, "directed_cases": len(c06Directed), "random_cases": nRandom, "random_max_len": randLen, "random_op_mix": opCount,
 	}
 }
 
